@@ -161,6 +161,9 @@ def main(run, tier):
     for f in ('calmjs.parse.asttypes', 'calmjs.parse.walkers', 'calmjs.parse.parsers.es5'):
         run.function(f, scratch.sha256_file(scratch.module_path(f))[:16])
     run.floor = 500
+    from .c14 import frame_obligations
+    import contracts.frames as cf
+    frame_obligations(run, cf.C16, 'C16')
     total = 0
     for prod in g.productions:
         runs, probs = check_production(g, shapes, prod)
